@@ -22,7 +22,7 @@ import cascade.shm.algorithms as algorithms  # noqa: E402
 DS = dataset.DatasetStatus
 STATUSES = [DS.created, DS.in_memory, DS.paging_out, DS.on_disk, DS.paged_in]
 RESIDENT = {DS.created, DS.in_memory, DS.paging_out, DS.paged_in}
-OPS = ["add", "close", "get", "purge", "wjob", "rjob"]
+OPS = ["add", "close", "get", "purge", "wjob", "rjob", "freespace"]
 
 
 class Ghost:
@@ -34,6 +34,26 @@ class Ghost:
         self.noseg: set[str] = set()  # keys whose writer never created the segment
 
 
+def learn_reader_ids(mgr, w):
+    """The ids the store itself hands to the 1st, 2nd and 3rd concurrent reader of a dataset (three real `get`s on a scratch
+    dataset): pre-states use these, so a reader table is one that a real history (gets, then closes) produces."""
+    key, shmid = "scratch", "scratchseg"
+    w.segs[shmid] = stubs_shm.Buf(1)
+    mgr.datasets[key] = dataset.Dataset(shmid=shmid, size=1, status=DS.in_memory, created=0, ongoing_reads={}, retrieved_first=0, retrieved_last=0,
+                                        deser_fun="d", delayed_purge=False)
+    ids = []
+    try:
+        for _ in range(3):
+            r = mgr.get(key)
+            if r[4] != "" or not r[2]:
+                raise HarnessError(f"scratch get refused: {r!r}")
+            ids.append(r[2])
+    finally:
+        del mgr.datasets[key]
+        del w.segs[shmid]
+    return ids
+
+
 def build_state(ch, statuses, with_bytes: bool, nreaders=None, stale_files=True, delayed_fixed=None):
     """An arbitrary state satisfying the representation invariant (assumed, not checked, here)."""
     w = stubs_shm.reset_world()
@@ -42,6 +62,7 @@ def build_state(ch, statuses, with_bytes: bool, nreaders=None, stale_files=True,
     w.boot_offset = ch.int("boot_offset", 0, None)  # wall clock minus monotonic clock
     capacity = ch.int("capacity", 1, None)
     mgr = stubs_shm.make_manager(capacity)
+    rd_ids = learn_reader_ids(mgr, w)
     g = Ghost()
     resident = 0
     to_page_out, to_page_in = [], []
@@ -60,7 +81,8 @@ def build_state(ch, statuses, with_bytes: bool, nreaders=None, stale_files=True,
                 if st != DS.in_memory:
                     # only a reader that was stale when the page-out was decided can still be registered
                     ch.assume(now - start > dataset.STALE_READ)
-                readers[f"rd{i}{r}"] = start
+                # one reader left: the one that came second (the first has closed); two left: the first and the third
+                readers[rd_ids[1] if nread == 1 else rd_ids[2 * r]] = start
         rf = ch.int(f"rfirst{i}", 0, None)
         rl = ch.int(f"rlast{i}", 0, None)
         ch.assume((rf == 0 and rl == 0) or (0 < rf and rf <= rl and rl <= now))
@@ -249,6 +271,7 @@ def one_step(ch, mgr, w, g, op: str, tag: str, strong_lock: bool, preempt: bool 
         key = ch.choose(keys + ["knew"], f"{tag}key")
         ds = mgr.datasets.get(key)
         st0 = ds.status if ds is not None else None
+        nrd0 = len(ds.ongoing_reads) if ds is not None else 0
         try:
             shmid, l, rdid, deser_fun, err = mgr.get(key)
         except Exception as e:
@@ -268,6 +291,8 @@ def one_step(ch, mgr, w, g, op: str, tag: str, strong_lock: bool, preempt: bool 
                 raise Violation("bytes-differ", "get granted with bytes different from what was written")
             if rdid not in ds.ongoing_reads:
                 raise Violation("get-reader-not-registered")
+            if len(ds.ongoing_reads) != nrd0 + 1:
+                raise Violation("new-reader-took-the-slot-of-a-reader-still-open", f"{key}: {nrd0} readers before the get, {len(ds.ongoing_reads)} after")
             if ds.is_pageoutable(w.now):
                 raise Violation("dataset-just-handed-to-a-reader-is-evictable", f"{key}: a reader got it this instant, yet it counts as page-out-able")
         ch.note("op", f"get({key})->{err or 'granted'}")
@@ -330,6 +355,30 @@ def one_step(ch, mgr, w, g, op: str, tag: str, strong_lock: bool, preempt: bool 
             w.preempt = None
             w.fail_file_io.discard(f"/fake/{shmid}")
         ch.note("op", f"{op}({shmid},{'fail' if fail else 'ok'})")
+    elif op == "freespace":
+        # through the real dispatch of the server: what it reports is capacity minus what is resident
+        import cascade.shm.api as api
+        import cascade.shm.server as server
+
+        srv = server.LocalServer.__new__(server.LocalServer)
+        srv.manager = mgr
+        inbox = [api.FreeSpaceRequest(), api.ShutdownCommand()]
+        answers = []
+        srv.receive = lambda: (inbox.pop(0), "client")
+        srv.respond = lambda comm, address: answers.append(comm)  # captured before encoding (encoding: C17)
+        try:
+            srv.start()
+        except Exception as e:
+            raise Violation("shm-server-loop-died", f"{type(e).__name__}: {e}")
+        if len(answers) != 2 or not isinstance(answers[0], api.FreeSpaceResponse):
+            raise Violation("request-without-answer", repr(answers)[:100])
+        resident = 0
+        for k_, d_ in mgr.datasets.items():
+            if d_.status in RESIDENT:
+                resident = resident + d_.size
+        if not (answers[0].free_space == mgr.capacity - resident):
+            raise Violation("reported-free-space-wrong", "the free space the server reports differs from capacity minus the resident total")
+        ch.note("op", "free-space request")
     else:
         raise HarnessError(op)
     check_invariant(mgr, w, g, strong_lock, f"after {op}")
